@@ -176,6 +176,8 @@ def gen_commit(seed, rng, tier, mem):
                        "n": rng.randint(2, 5)})
     return {"kind": "memcommit" if mem else "commit", "seed": seed,
             "sched": _sched(rng), "actors": actors,
+            # first commits of a branch that does not exist yet race too
+            "unborn": rng.random() < 0.3,
             "packed_initially": rng.random() < 0.4,
             "clock": {"step_lo_ns": 0, "step_hi_ns": rng.choice([0, 1000])}}
 
@@ -616,7 +618,11 @@ def run_commit(plan):
         c0 = util.mk_commit(tree.id, [], b"root\n", 1700000000)
         for o in (blob, tree, c0):
             repo0.object_store.add_object(o)
-        repo0.refs[A.encode()] = c0.id
+        unborn = bool(plan.get("unborn"))
+        if not unborn:
+            repo0.refs[A.encode()] = c0.id
+        else:
+            repo0.refs[b"refs/heads/keep"] = c0.id
         repo0.refs.set_symbolic_ref(b"HEAD", A.encode())
         if plan.get("packed_initially") and not mem:
             repo0.refs.pack_refs(all=True)
@@ -744,7 +750,8 @@ def run_commit(plan):
                     res["violations"].append({
                         "sig": f"C08/commit-odd-exception/{plan['kind']}",
                         "detail": err})
-            if tip is None or c0.id not in anc:
+            if (not unborn and (tip is None or c0.id not in anc)) or \
+                    (unborn and ok_commits and tip is None):
                 res["violations"].append({
                     "sig": f"C08/branch-lost/{plan['kind']}/{roles}",
                     "detail": f"tip={tip}"})
@@ -754,6 +761,8 @@ def run_commit(plan):
             prev = None
             for (v, inv, ret) in reads:
                 if v is None:
+                    if unborn and prev is None:
+                        continue  # not born yet
                     res["violations"].append({
                         "sig": f"C08/ref-vanished/get/{plan['kind']}/{roles}",
                         "detail": "reader saw the branch missing"})
